@@ -75,7 +75,11 @@ def parse(text: str, **options: Any) -> datetime | date | time | _Interval | Dur
     _options: dict[str, Any] = copy.copy(DEFAULT_OPTIONS)
     _options.update(options)
 
-    return _normalize(_parse(text, **_options), **_options)
+    try:
+        return _normalize(_parse(text, **_options), **_options)
+    except OverflowError:
+        # A number too large for the date, time or duration it belongs to
+        raise ParserError(f"Unable to parse string [{text}]")
 
 
 def _normalize(
@@ -128,7 +132,9 @@ def _parse(text: str, **options: Any) -> datetime | date | time | _Interval | Du
         dt = parser.parse(
             text, dayfirst=options["day_first"], yearfirst=options["year_first"]
         )
-    except ValueError:
+    except (ValueError, ArithmeticError):
+        # dateutil lets OverflowError and decimal.InvalidOperation
+        # escape for very long digit runs
         raise ParserError(f"Invalid date string: {text}")
 
     return dt
